@@ -275,7 +275,10 @@ where
 {
     match (a, b) {
         (Val::Float(x), Val::Float(y)) => Val::Float(x.powf(y)),
-        (Val::Float(x), Val::Int(y)) => Val::Float(x.powi(y.to_i32().unwrap())),
+        (Val::Float(x), Val::Int(y)) => match y.to_i32() {
+            Some(exponent) => Val::Float(x.powi(exponent)),
+            None => Val::Error(exerr!("cannot convert {:?} to exponent of a float", y)),
+        },
         (Val::Int(x), Val::Int(y)) => match y.to_usize() {
             Some(exponent_) => match num::checked_pow(x, exponent_) {
                 Some(res) => Val::Int(res),
@@ -368,11 +371,15 @@ macro_rules! single_type_arith {
     };
 }
 
-single_type_arith!(rem, Int, |a, b| if b == I::zero() {
+single_type_arith!(rem, Int, |a: I, b: I| -> Val<I, F> { if b == I::zero() {
     Val::Error(ExError::new("% by zero"))
 } else {
-    Val::Int(a % b)
-});
+    if a == I::min_value() && b == -I::one() {
+        Val::Error(exerr!("overflow in {:?}%{:?}", a, b))
+    } else {
+        Val::Int(a % b)
+    }
+}});
 single_type_arith!(bitwise_or, Int, |a, b| Val::Int(a | b));
 single_type_arith!(bitwise_and, Int, |a, b| Val::Int(a & b));
 single_type_arith!(bitwise_xor, Int, |a, b| Val::Int(a ^ b));
@@ -485,7 +492,24 @@ macro_rules! unary_name {
     }
 }
 
-unary_name!(abs, Float, Int);
+macro_rules! unary_op {
+    ($name:ident, $(($ops:expr, $variants:ident)),+) => {
+        unary_match!($name, unary_match_op, $(($ops, $variants)),+);
+    }
+}
+
+unary_op!(
+    abs,
+    (
+        |a: I| if a == I::min_value() {
+            Val::Error(exerr!("overflow in abs of {:?}", a))
+        } else {
+            Val::Int(a.abs())
+        },
+        Int
+    ),
+    (|a: F| Val::Float(a.abs()), Float)
+);
 unary_name!(signum, Float, Int);
 unary_name!(sin, Float);
 unary_name!(round, Float);
@@ -514,11 +538,6 @@ unary_name!(swap_bytes, Int);
 unary_name!(to_le, Int);
 unary_name!(to_be, Int);
 
-macro_rules! unary_op {
-    ($name:ident, $(($ops:expr, $variants:ident)),+) => {
-        unary_match!($name, unary_match_op, $(($ops, $variants)),+);
-    }
-}
 
 unary_op!(
     fact,
@@ -544,7 +563,14 @@ unary_op!(
 
 unary_op!(
     minus,
-    (|a: I| Val::Int(-a), Int),
+    (
+        |a: I| if a == I::min_value() {
+            Val::Error(exerr!("overflow in negation of {:?}", a))
+        } else {
+            Val::Int(-a)
+        },
+        Int
+    ),
     (|a: F| Val::Float(-a), Float),
     (
         |a: ArrayType<F>| Val::Array(a.iter().map(|ai| -(*ai)).collect()),
@@ -563,7 +589,10 @@ macro_rules! cast {
         {
             match v {
                 Val::$variant(x) => Val::$variant(x),
-                Val::$other_variant(x) => Val::$variant($T::from(x).unwrap()),
+                Val::$other_variant(x) => match $T::from(x) {
+                    Some(res) => Val::$variant(res),
+                    None => Val::Error(exerr!("cannot convert '{:?}'", x)),
+                },
                 Val::Bool(x) => Val::$variant(if x { $T::one() } else { $T::zero() }),
                 _ => Val::Error(exerr!("cannot convert '{:?}' to float", v)),
             }
